@@ -28,6 +28,10 @@ type CoerceCase struct {
 	// VarAt selects an inner position of the value (list element / input-object field, counted
 	// in pre-order, -1 = none) that is supplied through a variable inside the literal.
 	VarAt int `json:"varAt"`
+	// Mixed: besides x through a variable the probe gets literal arguments (bit 0: k: 7, bit 1: m: "s")
+	Mixed int `json:"mixed,omitempty"`
+	// TypedSlices: homogeneous list values of variables are handed over as []string, []int, []map[string]interface{} ...
+	TypedSlices bool `json:"typedSlices,omitempty"`
 }
 
 // literalWithInnerVar writes the value as a literal in which the VarAt-th inner position is a
@@ -88,6 +92,12 @@ func literalWithInnerVar(s *model.Schema, ty model.TypeRef, v *model.Val, at int
 	return lit, vty, vval, ok && lit != nil && !bad
 }
 
+// probeArgs: the probe's arguments. x is the argument under test; k (with a default) and m exist so that one field
+// occurrence can mix arguments written as literals with an argument given through a variable.
+func (c *CoerceCase) probeArgs() []*model.ArgDef {
+	return []*model.ArgDef{{Name: "x", Type: c.ArgType, Default: c.ArgDef}, {Name: "k", Type: model.T("Int"), Default: model.Int(5)}, {Name: "m", Type: model.T("String")}}
+}
+
 func (c *CoerceCase) schema() *model.Schema {
 	// Q gets the probe field: probe(x: T = default): String (the World echoes Args into the value)
 	s := *c.Schema
@@ -96,7 +106,7 @@ func (c *CoerceCase) schema() *model.Schema {
 		if td.Name == "Q" {
 			cp := *td
 			cp.Fields = append(append([]*model.FieldDef{}, td.Fields...), &model.FieldDef{Name: "probe", Type: model.T("String"),
-				Args: []*model.ArgDef{{Name: "x", Type: c.ArgType, Default: c.ArgDef}}})
+				Args: c.probeArgs()})
 			s.Types[i] = &cp
 		}
 	}
@@ -105,7 +115,7 @@ func (c *CoerceCase) schema() *model.Schema {
 	if s.Subscription == "" {
 		s.Subscription = "SP"
 		s.Types = append(s.Types, &model.TypeDef{Kind: model.KObject, Name: "SP", Fields: []*model.FieldDef{{Name: "probe", Type: model.T("String"),
-			Args: []*model.ArgDef{{Name: "x", Type: c.ArgType, Default: c.ArgDef}}}}})
+			Args: c.probeArgs()}}})
 	}
 	return &s
 }
@@ -169,6 +179,9 @@ func c05Oracle(c *CoerceCase) (msg string, classes []string) {
 	if c.Value != nil {
 		inputs["v"] = c.Value
 		goVars["v"] = c.Value.ToGo()
+		if c.TypedSlices {
+			goVars["v"] = c.Value.ToGoTyped()
+		}
 	}
 	sel := []*model.Sel{{K: "field", Name: "probe", Args: []*model.Arg{{Name: "x", Val: model.Var("v")}}}}
 	vdoc := &model.Doc{Defs: []*model.Def{{Kind: "query", Vars: []*model.VarDef{vd}, Sel: sel}}}
@@ -192,11 +205,29 @@ func c05Oracle(c *CoerceCase) (msg string, classes []string) {
 		if verr != nil {
 			return "HARNESS: reference rejects a value it called valid", classes
 		}
-		wantArgs := ref.ArgValues(s, []*model.ArgDef{{Name: "x", Type: c.ArgType, Default: c.ArgDef}}, sel[0].Args, cvars)
+		wantArgs := ref.ArgValues(s, c.probeArgs(), sel[0].Args, cvars)
 		if m := checkProbe(run, wantArgs, cvars, "variable", vtext, goVars); m != "" {
 			return m, classes
 		}
 		classes = append(classes, "conformant_variable")
+		// (b'') literal arguments next to the variable-bearing one on the same field
+		if c.Mixed > 0 {
+			margs := []*model.Arg{{Name: "x", Val: model.Var("v")}}
+			if c.Mixed&1 != 0 {
+				margs = append([]*model.Arg{{Name: "k", Val: model.Int(7)}}, margs...)
+			}
+			if c.Mixed&2 != 0 {
+				margs = append(margs, &model.Arg{Name: "m", Val: model.Str("s")})
+			}
+			msel := []*model.Sel{{K: "field", Name: "probe", Args: margs}}
+			mdoc := &model.Doc{Defs: []*model.Def{{Kind: "query", Vars: []*model.VarDef{vd}, Sel: msel}}}
+			mtext := model.Print(mdoc, nil).Text
+			mwant := ref.ArgValues(s, c.probeArgs(), margs, cvars)
+			if m := checkProbe(probe(b, w, mtext, goVars), mwant, cvars, "variable next to literal arguments", mtext, goVars); m != "" {
+				return m, classes
+			}
+			classes = append(classes, "variable_next_to_literal_arguments")
+		}
 		// (b') the Subscribe function of a subscription root field is a resolver too
 		if s.Subscription == "SP" {
 			sdoc := &model.Doc{Defs: []*model.Def{{Kind: "subscription", Vars: []*model.VarDef{vd}, Sel: sel}}}
@@ -243,11 +274,14 @@ func c05Oracle(c *CoerceCase) (msg string, classes []string) {
 	if valid && c.VarAt >= 0 && c.Value != nil {
 		if lit, vty, vval, ok := literalWithInnerVar(s, c.ArgType, c.Value, c.VarAt); ok {
 			cv, _ := ref.CoerceVariables(s, []*model.VarDef{{Name: "v", Type: c.ArgType}}, inputs)
-			wantArgs := ref.ArgValues(s, []*model.ArgDef{{Name: "x", Type: c.ArgType, Default: c.ArgDef}}, []*model.Arg{{Name: "x", Val: model.Var("v")}}, cv)
+			wantArgs := ref.ArgValues(s, c.probeArgs(), []*model.Arg{{Name: "x", Val: model.Var("v")}}, cv)
 			ndoc := &model.Doc{Defs: []*model.Def{{Kind: "query", Vars: []*model.VarDef{{Name: "w", Type: vty}},
 				Sel: []*model.Sel{{K: "field", Name: "probe", Args: []*model.Arg{{Name: "x", Val: lit}}}}}}}
 			ntext := model.Print(ndoc, nil).Text
 			nvars := map[string]interface{}{"w": vval.ToGo()}
+			if c.TypedSlices {
+				nvars["w"] = vval.ToGoTyped()
+			}
 			nrun := probe(b, w, ntext, nvars)
 			wcv, _ := ref.CoerceVariables(s, ndoc.Defs[0].Vars, map[string]*model.Val{"w": vval})
 			if m := checkProbe(nrun, wantArgs, wcv, "variable nested in a literal", ntext, nvars); m != "" {
@@ -390,6 +424,8 @@ func TestC05(t *testing.T) {
 			}
 		}
 		c.VarAt = gen.Intn(rt, -1, 5, "varAt")
+		c.Mixed = gen.Uniform(rt, 4, "mixedArgs")
+		c.TypedSlices = gen.Chance(rt, 30, "typedSlices")
 		msg, classes := c05Oracle(c)
 		for _, k := range classes {
 			stats.R.Class(k)
